@@ -114,7 +114,11 @@ func keyValuesOf(fn *ssa.Function) []ssa.Value {
 	return out
 }
 
-func (c *Ctx) checkExactMatch(r *Result, rule string, fn *ssa.Function) {
+func (c *Ctx) checkExactMatch(r *Result, rule string, fn *ssa.Function) { c.checkExactMatchOpt(r, rule, fn, true) }
+
+// checkExactMatchOpt: with needCompare unset only the negative part is applied (the function stores names, it is not
+// required to compare them).
+func (c *Ctx) checkExactMatchOpt(r *Result, rule string, fn *ssa.Function, needCompare bool) {
 	if fn == nil {
 		return
 	}
@@ -211,6 +215,10 @@ func (c *Ctx) checkExactMatch(r *Result, rule string, fn *ssa.Function) {
 			}
 			found = true
 		})
+	}
+	if !needCompare {
+		r.Hold(rule, c.Name(fn)+"#no-partial-name-match", c.Pos(fn.Pos()), "the name is not matched against stored names by a substring / prefix search")
+		return
 	}
 	r.Check(found, rule, c.Name(fn)+"#selects-by-equality", c.Pos(fn.Pos()), "the lookup compares the requested name with stored names using ==")
 }
@@ -1772,4 +1780,24 @@ func (c *Ctx) writesGuardedByEOF(fn *ssa.Function) bool {
 		}
 	}
 	return n > 0
+}
+
+func init() {
+	for _, pr := range [][2]string{{"C01", "C01.11"}, {"C03", "C03.12"}} {
+		pr := pr
+		reg := registry[pr[0]]
+		reg.Meta.Rules[pr[1]] = "the name heap stores names, it does not look them up: LocalHeap.AddString (and the heap's other writers) never locate an existing string by a substring, prefix or suffix search for the new name (a name that is part of an earlier one would be given that one's offset)"
+		reg.Rules = append(reg.Rules, func(c *Ctx, r *Result) {
+			n := 0
+			for _, name := range []string{"structures.LocalHeap.AddString", "structures.LocalHeap.PrepareForModification"} {
+				if fn := c.FnOpt(name); fn != nil {
+					n++
+					c.checkExactMatchOpt(r, pr[1], fn, false)
+				}
+			}
+			if n == 0 {
+				r.Undec(pr[1], "structures.LocalHeap#name-storage", "", "local heap writers not found")
+			}
+		})
+	}
 }
